@@ -47,6 +47,10 @@ func C13(c *core.Ctx) {
 			return false, strings.Join(r.Problems, "; "), r.Pos
 		})
 	}
+	// A-FIXKEYS: the YAML bridge changes keys only
+	ruleFixMapKeys(c)
+	// B-RAWPEEK: the decoders never SEARCH the raw text of a document (formatting-dependent)
+	emit(c, a.NoTextSearchInDocuments())
 	// B-PARSER: "YAML chosen by file extension" — of the file that is opened, i.e. after extension resolution and symlinks
 	emit(c, a.ParserChoice())
 	// A-TYPEFORM: "type" as string or one-element list; true and {} as the anything-schema (semantic, on a model of encoding/json)
